@@ -413,7 +413,8 @@ def run_model(model, M, tier, seed, wdir, extra_behaviours=None):
     # ---- E3 ----------------------------------------------------------------------------------
     t0 = time.time()
     with cf.ThreadPoolExecutor(NCPU) as ex:
-        outs = list(ex.map(lambda a: run_tlc_trace(M["trace"], a[1], wdir, "%02d" % a[0]), enumerate(trace_files)))
+        outs = list(ex.map(lambda a: run_tlc_trace(M["trace"], a[1], wdir, "%02d" % a[0], T.get("trace_timeout", 1800 if tier == "quick" else 7200)),
+                           enumerate(trace_files)))
     res["e3_wall"] = time.time() - t0
     cnt = {}
     viol = []
